@@ -286,6 +286,18 @@ func (bn *baseNode) Lock() {
 	bn.mu.Lock()
 }
 
+// mayChown reports whether the user u may change the owner and the group of the node to uid and gid,
+// where -1 means to not change that value.
+// As chown(2): an administrator may; the owner of the node may change its group to its own group;
+// anybody may leave both as they are.
+func (bn *baseNode) mayChown(uid, gid int, u avfs.UserReader) bool {
+	if u.IsAdmin() || (uid == -1 && gid == -1) {
+		return true
+	}
+
+	return bn.uid == u.Uid() && (uid == -1 || uid == bn.uid) && (gid == -1 || gid == bn.gid || gid == u.Gid())
+}
+
 // setModTime sets the modification time of the node.
 func (bn *baseNode) setModTime(mtime time.Time, u avfs.UserReader) bool {
 	if bn.uid != u.Uid() && !u.IsAdmin() {
